@@ -84,3 +84,12 @@ class VerifRetriable(Exception):
 def prog_task(tree_json, node):
     """Body of the generated task programs of C19 (same function in sync and distributed mode)."""
     return WORLD.prog_body(tree_json, node)
+
+
+def wf_sub(x):
+    return x
+
+
+def wf_task(script_json, fail_times=0):
+    """Body issuing a scripted sequence of deterministic workflow operations (C18)."""
+    return WORLD.wf_body(script_json, fail_times)
